@@ -501,5 +501,5 @@ def units(tier):
     us = []
     for which, n, k in (('comb', 500, 6), ('first', 500, 3), ('tf', 300, 3)):
         for i in range(k):
-            us.append({'name': 'gen-%s-%d' % (which, i), 'fn': 'unit_generated', 'kwargs': {'which': which, 'n': n if q else n * 12}})
+            us.append({'name': 'gen-%s-%d' % (which, i), 'fn': 'unit_generated', 'kwargs': {'which': which, 'n': n if q else n * 50}})
     return us
